@@ -1,8 +1,165 @@
 import DepsDev.Drive.Loop
+import DepsDev.Model.Resolve.Npm
 open DepsDev
+open DepsDev.Resolve.Npm
 
-/-- Stub: replaced by the property's builder. -/
-def handleC06 : List String → String
+/-! Line-protocol driver for C06 (wire format: see `harness/universe/npm_universe.go`).
+
+  resolve t=<hex>,<hex>,…  <U>  root=<name>@<ver>
+      → `ok N=… E=… T=…` | `err` | `timeout` | `bad-universe`
+
+All strings are interned by the harness: the table `t=` (ignored here) lists them,
+every other field uses indices into it (0 `""`, 1 `*`, 2 `bundle`, 3 `peer`, 4 `latest`).
+`<U>` is a `;`-separated list of records
+
+  v:<name>:<ver>:<mask>:<attrs>     a concrete version (`attrs` = `k=v,k=v…` or `_`)
+  i:<name>:<req>:<mask>:<attrs>     an import of the preceding `v` (in `client.Requirements` order)
+  m:<pkg>:<req>:<vers>              `client.MatchingVersions` (`!` = error, `_` = none, else `ver,ver…`)
+  s:<req>:<vers>                    `semver.NPM.ParseConstraint(req)` (`!` = error) and the version strings it matches
+
+The run has `driverFuel` pops of the queue; exhausted fuel prints `timeout` (the harness
+only emits universes on which Go either needs fewer pops or hits its deadline). -/
+
+namespace C06Driver
+
+def driverFuel : Nat := 600
+
+def parseList (s : String) : Option (List String) :=
+  if s == "_" then some [] else some (s.splitOn ",")
+
+def parseAttrs (s : String) : Option (List (Nat × Name)) := do
+  let items ← parseList s
+  items.mapM fun it =>
+    match it.splitOn "=" with
+    | [k, v] => do
+      let k ← k.toNat?
+      let v ← v.toNat?
+      pure (k, v)
+    | _ => none
+
+structure Raw where
+  versions : List (Version × List Import) := []   -- reversed, imports reversed
+  matching : List ((Name × Name) × Option (List Name)) := []
+  semver : List (Name × Option (List Name)) := []
+
+def parseRec (r : Raw) (rec : String) : Option Raw :=
+  match rec.splitOn ":" with
+  | ["v", n, v, m, a] => do
+    let n ← n.toNat?
+    let v ← v.toNat?
+    let m ← m.toNat?
+    let a ← parseAttrs a
+    pure { r with versions := (⟨n, v, ⟨m, a⟩⟩, []) :: r.versions }
+  | ["i", n, q, m, a] => do
+    let n ← n.toNat?
+    let q ← q.toNat?
+    let m ← m.toNat?
+    let a ← parseAttrs a
+    match r.versions with
+    | [] => none
+    | (v, is) :: rest => pure { r with versions := (v, ⟨n, q, ⟨m, a⟩⟩ :: is) :: rest }
+  | ["m", p, q, vs] => do
+    let p ← p.toNat?
+    let q ← q.toNat?
+    if vs == "!" then pure { r with matching := ((p, q), none) :: r.matching }
+    else
+      let l ← parseList vs
+      let l ← l.mapM (·.toNat?)
+      pure { r with matching := ((p, q), some l) :: r.matching }
+  | ["s", q, vs] => do
+    let q ← q.toNat?
+    if vs == "!" then pure { r with semver := (q, none) :: r.semver }
+    else
+      let l ← parseList vs
+      let l ← l.mapM (·.toNat?)
+      pure { r with semver := (q, some l) :: r.semver }
+  | _ => none
+
+def parseUniverse (s : String) : Option Universe := do
+  let r ← (s.splitOn ";").foldlM parseRec {}
+  let versions := (r.versions.map fun (v, is) => (v, is.reverse)).reverse
+  let matching ← r.matching.reverse.mapM fun ((p, q), a) =>
+    match a with
+    | none => some ((p, q), none)
+    | some l => do
+      let vs ← l.mapM fun ver =>
+        match Universe.findVersion versions p ver with
+        | some (v, _) => some v
+        | none => none
+      pure ((p, q), some vs)
+  pure { versions := versions, matching := matching, semver := r.semver.reverse }
+
+def parseRoot (s : String) : Option (Name × Name) :=
+  if s.startsWith "root=" then
+    match ((s.drop 5).toString).splitOn "@" with
+    | [n, v] => do
+      let n ← n.toNat?
+      let v ← v.toNat?
+      pure (n, v)
+    | _ => none
+  else none
+
+def joinOr (sep : String) (l : List String) : String :=
+  if l.isEmpty then "-" else sep.intercalate l
+
+def showAttrs (a : AttrSet) : String :=
+  s!"{a.mask}:" ++ joinOr "+" (a.attrs.map fun (k, v) => s!"{k}={v}")
+
+def showNode (g : GNode) : String :=
+  s!"{g.name}@{g.version}" ++ String.join (g.errs.map fun (p, q) => s!"!{p}@{q}")
+
+def showEdge (e : Edge) : String :=
+  s!"{e.src}>{e.dst}:{e.imp.req}:{showAttrs e.ty}"
+
+/-- insertion sort of naturals (for the printed sets). -/
+def insNat (x : Nat) : List Nat → List Nat
+  | [] => [x]
+  | y :: r => if x ≤ y then x :: y :: r else y :: insNat x r
+def sortNat (l : List Nat) : List Nat := l.foldr insNat []
+
+def lexLe : List Nat → List Nat → Bool
+  | [], _ => true
+  | _ :: _, [] => false
+  | a :: r, b :: s => a < b || (a == b && lexLe r s)
+
+/-- sort key of a tree entry: slot names from the root, then the alias flag of the last slot. -/
+def entryKey (p : Path) : List Nat :=
+  p.reverse.map (·.name) ++ [match p with | s :: _ => (if s.alias then 1 else 0) | [] => 0]
+
+def insEntry (x : List Nat × String) : List (List Nat × String) → List (List Nat × String)
+  | [] => [x]
+  | y :: r => if lexLe x.1 y.1 then x :: y :: r else y :: insEntry x r
+
+def showEntry (p : Path) (n : TNode) : String :=
+  let path := if p.isEmpty then "." else "/".intercalate (p.reverse.map fun s => toString s.name)
+  let isAlias := match p with | s :: _ => s.alias | [] => false
+  let flags := (if isAlias then "a" else "") ++ (if n.processed then "p" else "")
+  let flags := if flags.isEmpty then "-" else flags
+  s!"{path}:{n.ver.name}@{n.ver.version}#{n.id}:{flags}:" ++
+    joinOr "+" ((sortNat n.prot).map toString) ++ ":" ++ joinOr "+" ((sortNat n.aprot).map toString)
+
+def showState (st : State) : String :=
+  let entries := st.tree.foldr (fun (p, n) acc => insEntry (entryKey p, showEntry p n) acc) []
+  "ok N=" ++ joinOr "," (st.nodes.map showNode) ++
+  " E=" ++ joinOr "," (st.edges.map showEdge) ++
+  " T=" ++ joinOr "," (entries.map (·.2))
+
+def hasBundles (u : Universe) : Bool :=
+  u.versions.any fun (v, _) => (v.attr.get verDerivedFrom).isSome
+
+def handle : List String → String
+  | ["resolve", _t, us, root] =>
+    match parseUniverse us, parseRoot root with
+    | some u, some (rn, rv) =>
+      if hasBundles u then "out-of-domain" else
+      match resolve u rn rv driverFuel with
+      | none => "timeout"
+      | some .bad => "bad-universe"
+      | some .err => "err"
+      | some (.ok st) => showState st
+    | _, _ => "bad-op"
   | _ => "bad-op"
 
-def main : IO Unit := Drive.runDriver "C06" handleC06
+end C06Driver
+
+def main : IO Unit := Drive.runDriver "C06" C06Driver.handle
